@@ -4,7 +4,7 @@ import ast
 
 from ..program import AnalysisError, walk_local, dotted
 from ..analysis import Spec, src, const_value
-from ..rules import (before, order_of, canon, cond_equiv, substitute_locals, string_template, GWF, EXC, mpt, need_func, stores_to, is_const, kw,
+from ..rules import (strip_wrappers, before, order_of, canon, cond_equiv, substitute_locals, string_template, GWF, EXC, mpt, need_func, stores_to, is_const, kw,
                      parent_map, raise_class, explicit_exits)
 from . import common, gitcmds
 from .c02 import _site_publishes
@@ -415,7 +415,9 @@ def delete_preconditions(prog, an, rep):
                 t = string_template(e.args[0])
                 ok = t is not None and t[0] == 'stabilization/{}' and \
                     canon(f, t[1][0]) == B + '.version' and \
-                    canon(f, g.iter) == REPO + '.remote_branches'
+                    canon(f, strip_wrappers(substitute_locals(f, g.iter),
+                                            ('list', 'tuple', 'sorted'))) == \
+                    REPO + '.remote_branches'
         rep.check(ok, R, f.qname + ': live stabilization branches of that '
                   'version block the deletion', f.where(),
                   'stabilization test is %s' % canon(
